@@ -448,6 +448,8 @@ func (self *Compiler) compileExpr(node ast.AnalyzedExpression) {
 		if node.DefaultArmAction != nil {
 			self.insert(newOneStringInstruction(Opcode_Jump, default_branch), node.Range)
 		} else {
+			// No arm matched: the control value is still on the stack.
+			self.insert(newPrimitiveInstruction(Opcode_Drop), node.Range)
 			self.insert(newOneStringInstruction(Opcode_Jump, after_branch), node.Range)
 		}
 
@@ -462,6 +464,8 @@ func (self *Compiler) compileExpr(node ast.AnalyzedExpression) {
 
 		if node.DefaultArmAction != nil {
 			self.insert(newOneStringInstruction(Opcode_Label, default_branch), node.Range)
+			// Like in the other arms, the control value must be dropped.
+			self.insert(newPrimitiveInstruction(Opcode_Drop), node.Range)
 			self.compileExpr(*node.DefaultArmAction)
 			self.insert(newOneStringInstruction(Opcode_Jump, after_branch), node.Range)
 		}
